@@ -9,6 +9,13 @@ TRUST = [
 ]
 
 CONFIG = {
+    "C13": {
+        "level": "exploration",
+        "gates_of": ["C01"],
+        "assumptions": TRUST + ["scheduling is perturbed through drawn answer delays at the fakes and GOMAXPROCS, not enumerated", "fresh gateways give fresh Go maps (iteration order is randomised per map by the runtime)"],
+        "quick": {"tests": [("TestC13", 1200)], "shards": 4, "timeout": 600},
+        "thorough": {"tests": [("TestC13", 4000)], "shards": 16, "timeout": 3000, "race": True},
+    },
     "C12": {
         "level": "exploration",
         "gates_of": ["C01"],
